@@ -37,6 +37,7 @@ type Exec struct {
 	syms      []symInfo
 	steps     int
 	maxSteps  int
+	depthViol int // vcfg("depthviolation", n)
 	nextID    int
 	funcs     map[*ssa.Function]bool // functions executed
 	symCount  map[string]int
@@ -388,6 +389,9 @@ func (e *Exec) callFn(fn *ssa.Function, args []Value, env []Value) (res Value) {
 		panic(unsupported{"no body: " + fn.String() + " called from " + e.stack()})
 	}
 	th := e.sch.cur
+	if e.depthViol > 0 && len(th.stack) > e.depthViol {
+		panic(violationFound{fmt.Sprintf("unbounded recursion: the call stack passed %d frames in %s (natively a stack overflow, which no caller can recover from)", e.depthViol, fn.String())})
+	}
 	if len(th.stack) > 400 {
 		panic(pathEnd{"unwind: call depth exceeded"})
 	}
